@@ -310,13 +310,16 @@ def natdigits_intrinsic(it, args, kwargs, node):
 class IbanModel(Model):
     cls_qual = "schwifty.iban.IBAN"
 
-    def __init__(self, ctx, with_validate=True):
+    def __init__(self, ctx, with_validate=True, falsy_flag=False):
         super().__init__(ctx)
         set_facts(ctx.facts)
         self.entries = [("init", "init", {}), ("init_bban", "init", {"validate_bban": True}),
                         ("is_valid", "is_valid", {})]
         if with_validate:
             self.entries += [("validate", "validate", {}), ("validate_bban", "validate", {"validate_bban": True})]
+        if falsy_flag:
+            # allow_invalid given as a falsy non-bool (None): still a validating construction
+            self.entries += [("init_none", "init", {"allow_invalid": None})]
         self.run_all()
 
     def intrinsics(self):
